@@ -230,10 +230,46 @@ pub struct ParentArgs {
 /// write evidence, print verdict lines, return exit code.
 pub fn run_parent(spec: &CheckSpec, args: &ParentArgs) -> i32 {
     let start = Instant::now();
+    // Long runs of the node-based checks are cut into generations of fresh worker
+    // processes: a node that was shut down keeps its database files open for as long as
+    // background tasks of the agent hold a handle, so one process cannot run executions
+    // for many minutes without running out of file descriptors.
+    let pure = ["C04", "C08", "C09", "C18"].contains(&spec.prop);
+    let gen_len = if !pure && args.budget > Duration::from_secs(150) { Duration::from_secs(120) } else { args.budget };
+    let n_gens = ((args.budget.as_secs() + gen_len.as_secs() - 1) / gen_len.as_secs().max(1)).max(1);
+    let mut merged = Report::default();
+    for g in 0..n_gens {
+        let seed_g = args.seed.wrapping_add(g.wrapping_mul(104_729));
+        let (r, dead) = run_generation(spec, args, seed_g, gen_len);
+        merge(&mut merged, r);
+        for d in dead {
+            merged.inconclusive.push(d);
+            *merged.stats.entry("inconclusive".into()).or_insert(0) += 1;
+        }
+        if n_gens > 1 {
+            *merged.stats.entry("worker_generations".into()).or_insert(0) += 1;
+        }
+    }
+    if args.replay.is_some() {
+        // a replay re-runs one witness: the non-vacuity rule of a whole run does not apply
+        let one = CheckSpec {
+            prop: spec.prop,
+            level: spec.level,
+            rule: spec.rule,
+            assumptions: spec.assumptions,
+            min_nontrivial: 0,
+            required_stats: &[],
+        };
+        return finish(&one, args.tier, args.seed, &args.out, merged, start.elapsed(), args.workers);
+    }
+    finish(spec, args.tier, args.seed, &args.out, merged, start.elapsed(), args.workers)
+}
+
+fn run_generation(spec: &CheckSpec, args: &ParentArgs, seed: u64, budget: Duration) -> (Report, Vec<String>) {
     let exe = std::env::current_exe().expect("current_exe");
     let mut children = vec![];
     // generous watchdog (its firing is "inconclusive", never a verdict)
-    let watchdog = args.budget * 6 + Duration::from_secs(300);
+    let watchdog = budget * 6 + Duration::from_secs(300);
 
     for w in 0..args.workers {
         let mut cmd = Command::new(&exe);
@@ -241,13 +277,13 @@ pub fn run_parent(spec: &CheckSpec, args: &ParentArgs) -> i32 {
             .arg("--tier")
             .arg(args.tier.as_str())
             .arg("--seed")
-            .arg(args.seed.to_string())
+            .arg(seed.to_string())
             .arg("--worker")
             .arg(w.to_string())
             .arg("--of")
             .arg(args.workers.to_string())
             .arg("--budget-s")
-            .arg(args.budget.as_secs().to_string());
+            .arg(budget.as_secs().to_string());
         if let Some(r) = &args.replay {
             cmd.arg("--replay").arg(r);
         }
@@ -305,12 +341,17 @@ pub fn run_parent(spec: &CheckSpec, args: &ParentArgs) -> i32 {
     }
 
     // watchdog thread: kill everything if it takes far too long
-    let wd_flag = std::sync::Arc::new(std::sync::atomic::AtomicBool::new(false));
+    let done_flag = std::sync::Arc::new(std::sync::atomic::AtomicBool::new(false));
     {
-        let wd_flag = wd_flag.clone();
+        let done_flag = done_flag.clone();
         std::thread::spawn(move || {
-            std::thread::sleep(watchdog);
-            wd_flag.store(true, std::sync::atomic::Ordering::SeqCst);
+            let t0 = Instant::now();
+            while t0.elapsed() < watchdog {
+                if done_flag.load(std::sync::atomic::Ordering::SeqCst) {
+                    return;
+                }
+                std::thread::sleep(Duration::from_millis(200));
+            }
             eprintln!("INCONCLUSIVE watchdog expired after {watchdog:?}");
             for pid in pids {
                 unsafe {
@@ -338,12 +379,8 @@ pub fn run_parent(spec: &CheckSpec, args: &ParentArgs) -> i32 {
             }
         }
     }
-    for d in &dead_workers {
-        merged.inconclusive.push(d.clone());
-        *merged.stats.entry("inconclusive".into()).or_insert(0) += 1;
-    }
-
-    finish(spec, args.tier, args.seed, &args.out, merged, start.elapsed(), args.workers)
+    done_flag.store(true, std::sync::atomic::Ordering::SeqCst);
+    (merged, dead_workers)
 }
 
 pub fn merge(into: &mut Report, r: Report) {
